@@ -500,6 +500,12 @@ def d_valid_arm(prog, f, sy, e, cl):
         shp = shape(f, sy, e)
         desc = describe(f, sy, e)
         generic = "FuzzyHashCompareTarget" not in (f.impl_self or f.path)
+        # a block hash array (or a copy / map of it) may only be sliced by ITS OWN length: `buffer2[..len_blockhash1]` is within capacity
+        # for the long forms only
+        arrs = set(re.findall(r"(?<![_\w])blockhash([12])\b", desc))
+        lens = set(re.findall(r"len_blockhash([12])\b", desc))
+        if arrs and lens and arrs != lens:
+            return None
         for n in re.findall(r"local<\[u8; ([^\]]+)\]>", shp):
             n = n.strip()
             full = n in ("64", "64_usize") or n.endswith("FULL_SIZE") or n.endswith("FULL_SIZE}")
